@@ -472,6 +472,20 @@ def run(ctx):
             outer = (e.get('conds') or [])[:-1]
             if outer and wdepth.get(k_, 0) <= 1:
                 agg.setdefault(('presence', 'the reader accepts %s only after %s, while the writer emits it independently' % (k_, '/'.join(c[1] for c in outer)), 'nested under ' + '/'.join(c[1] for c in outer) + ':' + str(k_)), []).append(VERSIONS[-1])
+        # presence is decided by presence alone: a writer that also looks at the VALUE of the field it is about to write
+        # (`if self._x is not None and self._x.value:`) drops a field that is present with a falsy value (index 0, False, empty) - the reader
+        # accepts such a field, so encode-decode turns it into None
+        for ifn in [x for x in ast.walk(wf) if isinstance(x, ast.If)]:
+            vreads = set()
+            for x in ast.walk(ifn.test):
+                if isinstance(x, ast.Attribute) and x.attr == 'value' and isinstance(x.value, ast.Attribute) and isinstance(x.value.value, ast.Name) and x.value.value.id == 'self':
+                    vreads.add(x.value.attr.lstrip('_'))
+            for x in [y for st_ in ifn.body for y in ast.walk(st_)]:
+                if isinstance(x, ast.Call) and isinstance(x.func, ast.Attribute) and x.func.attr == 'write' and isinstance(x.func.value, ast.Attribute) \
+                        and isinstance(x.func.value.value, ast.Name) and x.func.value.value.id == 'self' and x.func.value.attr.lstrip('_') in vreads:
+                    fld_ = x.func.value.attr.lstrip('_')
+                    agg.setdefault(('presence', 'the writer emits field %s depending on its VALUE (%s): a %s that is present with a falsy value (0, False, empty) is dropped on encoding although the reader accepts it - it decodes as None' % (
+                        fld_, ' '.join(U(ifn.test).split())[:70], fld_), 'written depending on its value:%s' % fld_), []).append(VERSIONS[-1])
         if not agg:
             ctx.ok('C01.R1', site, 'reader and writer agree on %d element(s) under all versions they define' % len(R.flat(VERSIONS[-1]) or R.flat(VERSIONS[0])))
             ctx.ok('C01.R2', site, 'presence requirements agree')
